@@ -193,8 +193,11 @@ class PVLEncoder(object):
 
         prefix = level * (self.indent * " ")
 
-        if len(prefix + s + self.newline) > self.width and "=" in s:
-            (preq, _, posteq) = s.partition("=")
+        (preq, _, posteq) = s.partition("=")
+
+        # Only what follows the equals sign can be wrapped; when nothing
+        # does (yet), the text is returned whole however long it is.
+        if len(prefix + s + self.newline) > self.width and posteq.strip():
             new_prefix = prefix + preq.strip() + " = "
 
             # Lines may only be broken at spaces between elements.  White
